@@ -1,6 +1,8 @@
 """C16 - on-disk encodings match the PICO-8 cart formats, not merely each other."""
+import io
 import os
 import lib
+from props import shortp8
 
 ID = 'C16'
 GEN_FILES = ['K_gfx', 'K_gff', 'K_map', 'K_sfx', 'K_music', 'K_p8png']
@@ -16,7 +18,11 @@ RULE = ('write cases: region bytes -> section.to_lines() vs the reference text o
         'unrepresentable bit); patterns: random, 0xff, ramp, walking bit, every byte value at every column of a gfx row, '
         'every one of the 65,536 sfx note words, all music flag/channel high-bit combinations; malformed lines '
         '(correspondence only); all 65,536 (channel value, byte) steganography pairs on the real pack/unpack functions; '
-        'the PICO-8-written reference carts in tests/testdata as .p8 and .p8.png. distinct+non-trivial = distinct '
+        'the PICO-8-written reference carts in tests/testdata as .p8 and .p8.png; short cases: a .p8 file in which one '
+        'section (or every section) has only its first k rows of the reference text (k = 0, 1, 2, half, all but one, all; '
+        'gfx, label, map, gff, music, sfx; with or without blank separator lines), read with P8Formatter.from_file, then saved '
+        'as .p8.png and read again - both readings of every region must be the rows present followed by the empty default '
+        '(holds_C16_file: newer PICO-8 versions leave out the empty tail of a section). distinct+non-trivial = distinct '
         '(section, content) pairs with at least one non-zero byte')
 ASSUMPTIONS = ['int(x,16) is modelled for pure hex-digit fields only (Python also accepts sign/underscore/space); malformed '
                'lines exercising that leniency are not generated',
@@ -29,7 +35,10 @@ CLAIM = dict(
           "unrepresentable bit); C16_png_read / C16_png_write: the byte read from, and the four channel values stored into, any "
           "pixel equal the reference A,R,G,B two-bit split; C16_png_layout: the regenerated slice bounds of the raw .p8.png "
           "reader cut the image into gfx, map, gff, music, sfx, code, version; C16_same_cart: the same memory as .p8 text and "
-          "as .p8.png image decodes to identical regions. Byte / note-word facts are complete vm_compute sweeps over the "
+          "as .p8.png image decodes to identical regions. A .p8 section with fewer rows than the full count denotes the rows "
+          "present followed by the empty default (Spec/P8Format.v 'short sections'; theorem C03_short_sections_padded for the "
+          "model of from_file after the fix: commit that fills short sections up), observed on the real reader and on the "
+          "same cart saved as .p8.png. Byte / note-word facts are complete vm_compute sweeps over the "
           "regenerated kernels (all 256 bytes, all 65,536 note words, all 65,536 (channel, byte) pairs) lifted by induction "
           "over rows, patterns and lines. Tie: kernels regenerated from gfx.py/sfx.py/music.py/p8png.py each run (self-tested "
           "in Coq), line loops hand-modelled and compared with the implementation; the extracted reference encoders are "
@@ -138,6 +147,20 @@ def generate(tier, rng):
             prev = d
         for lines in _malformed(rng, sec, tier):
             yield {'kind': 'malformed', 'sec': sec, 'lines': [lib.hx(l) for l in lines]}
+    # sections with fewer rows than the full count (newer PICO-8 versions leave out the empty tail): one section
+    # cut to k rows, the others missing from the file; then every section cut at once
+    for si, sec in enumerate(SECS + ['label']):
+        n = shortp8.ROWS[sec]
+        for j, k in enumerate(sorted({0, 1, 2, n // 2, n - 1, n})):
+            d = rng.randbytes(shortp8.SIZE[sec]) if (j + si) % 3 else b'\xff' * shortp8.SIZE[sec]
+            yield {'kind': 'short', 'secs': {sec: [lib.hx(d), k]}, 'blank': (j + si) % 2 == 0}
+    for j in range(4 if tier == 'quick' else 40):
+        secs = {}
+        for sec in SECS + ['label']:
+            n = shortp8.ROWS[sec]
+            if rng.random() < 0.85:
+                secs[sec] = [lib.hx(rng.randbytes(shortp8.SIZE[sec])), rng.choice([0, 1, 2, n // 2, n - 1, n])]
+        yield {'kind': 'short', 'secs': secs, 'blank': j % 2 == 1}
     # steganography: all (channel value, byte) pairs
     yield {'kind': 'stego'}
     td = os.path.join(lib.REPO, 'tests', 'testdata')
@@ -211,6 +234,27 @@ def run_impl(case):
             return {'res': 'OK ' + lib.hx(s._data)}
         except Exception as e:  # noqa
             return {'res': 'ERR ' + lib.exc_name(e)}
+    if k == 'short':
+        # a .p8 file with the first k rows of each listed section (reference text), read by the cart reader; the
+        # cart is then saved as .p8.png and read again ("the same cart as .p8 and as .p8.png loads identically")
+        from pico8.game.formatter.p8 import P8Formatter
+        from pico8.game.formatter.p8png import P8PNGFormatter
+        out = {'file': lib.hx(_short_file(case)), 'p8': None, 'png': None}
+        try:
+            g = P8Formatter.from_file(io.BytesIO(_short_file(case)))
+            out['p8'] = {sec: (lib.hx(getattr(g, sec)._data) if getattr(g, sec) is not None else None)
+                         for sec in SECS + ['label']}
+        except Exception as e:  # noqa
+            out['p8_err'] = lib.exc_name(e)
+            return out
+        try:
+            fh = io.BytesIO()
+            P8PNGFormatter.to_file(g, fh, filename='short.p8.png')
+            g2 = P8PNGFormatter.from_file(io.BytesIO(fh.getvalue()), filename='short.p8.png')
+            out['png'] = {sec: lib.hx(getattr(g2, sec)._data) for sec in SECS}
+        except Exception as e:  # noqa
+            out['png_err'] = lib.exc_name(e)
+        return out
     if k == 'stego' and 'row' in case:
         # replay of one minimised pixel
         from pico8.game.formatter import p8png
@@ -259,6 +303,20 @@ def run_impl(case):
     raise ValueError(k)
 
 
+FILE_ORDER = ['gfx', 'label', 'gff', 'map', 'sfx', 'music']
+
+
+def _short_file(case):
+    out = [b'pico-8 cartridge // http://www.pico-8.com\nversion 41\n__lua__\nx=1\n']
+    for sec in FILE_ORDER:
+        if sec in case['lines']:
+            out.append(b'__' + sec.encode() + b'__\n')
+            out.extend(lib.unhx(l) for l in case['lines'][sec])
+            if case.get('blank') and sec in ('gfx', 'label', 'music'):
+                out.append(b'\n')
+    return b''.join(out)
+
+
 def model_requests(case, obs):
     k = case['kind']
     if k == 'write':
@@ -298,6 +356,20 @@ def monitor_requests(case, obs):
                 _, px, byte_, new = row
                 reqs.append('pack %d %d %d %d %d %d %d %d %d' % (px[0], px[1], px[2], px[3], byte_, new[0], new[1], new[2], new[3]))
         return reqs
+    if k == 'short':
+        # every region - also of the sections the file leaves out - must be the rows present + the empty default
+        reqs = []
+        for sec in SECS + ['label']:
+            ls = '|'.join(case['lines'].get(sec, [])) or '.'
+            if sec == 'label' and sec not in case['lines']:
+                if obs['p8'] is not None and obs['p8']['label'] is not None:
+                    reqs.append('f 0 . -')          # a label invented: answers false
+                continue
+            p8 = obs['p8'][sec] if obs['p8'] is not None else None
+            reqs.append('f %d %s %s' % (SECID[sec], ls, p8 or '-'))
+            if sec != 'label' and obs['p8'] is not None:
+                reqs.append('f %d %s %s' % (SECID[sec], ls, (obs['png'] or {}).get(sec) or '-'))
+        return reqs
     if k == 'file':
         reqs = []
         for sec, ls in obs['lines'].items():
@@ -318,6 +390,8 @@ def minimize(case, obs, answers):
 
 
 def signature(case, obs):
+    if case['kind'] == 'short':
+        return 'C16/short/%s' % '+'.join(s for s in FILE_ORDER if s in case['secs'])
     return 'C16/%s/%s' % (case['kind'], case.get('sec', case.get('base', '')))
 
 
@@ -326,6 +400,15 @@ def what(case, obs):
 
 
 def describe(case, obs):
+    if case['kind'] == 'short':
+        d = {'kind': 'short', 'rows_kept': {s: v[1] for s, v in case['secs'].items()}, 'blank_lines': case.get('blank')}
+        if obs:
+            d['read_error'] = obs.get('p8_err')
+            d['png_error'] = obs.get('png_err')
+            if obs.get('p8'):
+                d['region_sizes_read'] = {s: (len(v) // 2 if v else None) for s, v in obs['p8'].items()}
+            d['file'] = lib.unhx(obs['file'])[:200].decode('latin-1') + '...'
+        return d
     d = {k: (v if not isinstance(v, str) or len(v) < 80 else v[:64] + '...(%d bytes)' % (len(v) // 2)) for k, v in case.items() if k != 'lines'}
     if 'lines' in case:
         d['lines'] = [l[:48] + ('...' if len(l) > 48 else '') for l in case['lines'][:3]]
@@ -339,12 +422,16 @@ def nontrivial_key(case, obs):
     if case['kind'] in ('write', 'read'):
         if set(case['data']) - set('0'):
             return (case['kind'], case['sec'], hash(case['data']))
+    if case['kind'] == 'short':
+        return ('short', hash(str(sorted(case['secs'].items()))), case.get('blank'))
     if case['kind'] in ('file', 'stego', 'malformed'):
         return (case['kind'], case.get('sec'), case.get('base'), hash(str(case.get('lines'))))
     return None
 
 
 def histogram_key(case, obs):
+    if case['kind'] == 'short':
+        return 'short:' + ('all' if len(case['secs']) > 1 else next(iter(case['secs'])))
     return case['kind'] + ':' + case.get('sec', '')
 
 
@@ -356,6 +443,17 @@ def run_cases(cases, ctx):
         ans = lib.run_driver_parallel(ctx['monitor_exe'], ['spec %d %s' % (SECID[c['sec']], c['data']) for c in reads])
         for c, a in zip(reads, ans):
             c['lines'] = [] if a == '.' else a.split('|')
+    # ... and so do the rows of every short case (the first k lines of the reference text of the region)
+    shorts = [(c, sec) for c in cases if c['kind'] == 'short' and 'lines' not in c for sec in c['secs']]
+    if shorts and ctx.get('monitor_exe'):
+        ans = lib.run_driver_parallel(ctx['monitor_exe'], ['spec %d %s' % (SECID[sec], c['secs'][sec][0]) for c, sec in shorts])
+        for (c, sec), a in zip(shorts, ans):
+            ls = [] if a == '.' else a.split('|')
+            c.setdefault('lines', {})[sec] = ls[:c['secs'][sec][1]]
+    cases = [c for c in cases if c['kind'] != 'short' or 'lines' in c or not c['secs']]
+    for c in cases:
+        if c['kind'] == 'short':
+            c.setdefault('lines', {})
     cases = [c for c in cases if c['kind'] != 'read' or 'lines' in c]
     res = lib.standard_run(mod, cases, ctx)
     n_stego = sum(len(lib_rows) for lib_rows in [[1] * (4 * 256 + 65536)] if any(c['kind'] == 'stego' for c in cases))
